@@ -83,6 +83,21 @@ def check(db, rep):
         rec = db.record(cls)
         fields = {x['name']: x for x in rec['fields']}
         short = cls.split('::')[-1]
+        # a member exempted because it "wraps a reference" must really be stateless: its own record holds only references and constants
+        for fname, why in A['exempt'].items():
+            if 'wraps' not in why or fname not in fields:
+                continue
+            ftype = (fields[fname].get('ctype') or fields[fname]['type']).replace('const ', '').replace('class ', '').replace('struct ', '').strip()
+            frec = db.records.get(ftype)
+            if frec is None:
+                r1.broken('the record of the exempt member %s::%s (%s) is not known' % (short, fname, ftype))
+                continue
+            state = [x['name'] for x in frec.get('fields', []) if not (x.get('ctype') or x['type']).strip().endswith('&') and not (x.get('ctype') or x['type']).strip().startswith('const ')]
+            if state:
+                r1.violation('%s:%s(stateless)' % (short, fname), '%s:%d' % (rec.get('file', ''), rec.get('line', 0)), 'the helper member `%s` (%s) is exempt from the reset because it only wraps a context reference, but it now holds %s: '
+                             'whatever an analysis stores there (a memo of looked-up traits) survives %s::%s and answers for the next input, also after the context changed' % (fname, ftype.split('::')[-1], ', '.join(state), short, A.get('reset') or 'the entry'))
+            else:
+                r1.ok('%s:%s(stateless)' % (short, fname), 'holds only references / constants', '')
         if A['entry'] is not None:
             entry = db.fn(cls + '::' + A['entry'])
             methods = M.reachable_methods(entry, cls)
